@@ -11,7 +11,8 @@ from vlib import common, realrun, workload
 
 
 def make_case(r):
-    kind = r.choice(['eq', 'let', 'dt', 'empty', 'general'])
+    kind = r.choice(['eq', 'let', 'dt', 'empty', 'general', 'fresh', 'fresh'])
+    extra = []
     if kind == 'eq':
         lines = ['(declare-const a Int)', '(declare-const b Int)',
                  '(declare-const c Int)',
@@ -28,6 +29,18 @@ def make_case(r):
                  '(declare-const t T)', '(declare-const u T)',
                  '(assert (= t u (C 1)))', '(assert (distinct t u))',
                  '(check-sat)']
+    elif kind == 'fresh':
+        # steps that introduce declarations (fresh variables) must be
+        # accepted: a solver-like predicate and few enabled mutators
+        n = r.randint(2, 4)
+        lines = ['(set-logic QF_LIA)'] + [
+            f'(declare-const a{i} Int)' for i in range(n)] + [
+            f'(assert (> (+ a{i} (* 2 a{(i + 1) % n})) (- a{(i + 2) % n} {i})))'
+            for i in range(n)] + ['(check-sat)']
+        extra = ['--disable-all', '--introduce-fresh-variables',
+                 '--replace-by-variable', '--substitute-children']
+        if r.random() < 0.5:
+            extra += ['--erase-node']
     elif kind == 'empty':
         lines = ['(declare-fun f () Int)', '(declare-fun g () Int)',
                  '(assert (= f () g ()))', '(assert (= () (() ())))',
@@ -40,11 +53,16 @@ def make_case(r):
     rules, pred = workload.pick_spec(r, text, families=['all', 'has',
                                                         'count', 'ntok',
                                                         'hash'])
+    if kind == 'fresh':
+        k = r.randint(1, 3)
+        rules = realrun.simple_spec(
+            f'scoped count:assert>={k} & count:%2B>=1 ! &')
     strat = r.choice(workload.STRATEGIES)
     j = r.choice([1, 2, 4])
     opts = ['--strategy', strat, '-j', str(j), '--timeout', '20']
     if r.random() < 0.5:
         opts += ['--arithmetic', '--datatypes']
+    opts += extra
     return text, rules, opts, {'input': text, 'rules': rules, 'kind': kind,
                                'opts': opts}
 
